@@ -40,6 +40,7 @@ enum Op {
     MintRuid(Vec<(Id, [u64; 4])>), // ids filled in after execution (generated)
     Burn(Vec<Id>),
     Update(Id, usize, u64),
+    Seq(Vec<Op>), // several operations in ONE transaction (all or nothing)
 }
 #[derive(Clone, Debug, PartialEq, Eq)]
 enum Entry {
@@ -80,7 +81,12 @@ fn op_coq(o: &Op) -> String {
         Op::MintRuid(e) => format!("(OMintRuid {})", entries_coq(e)),
         Op::Burn(ids) => format!("(OBurn {})", coq_list(ids.iter().map(id_coq))),
         Op::Update(id, f, v) => format!("(OUpdate {} {} {})", id_coq(id), f, v),
+        Op::Seq(ops) => ops.iter().map(op_coq).collect::<Vec<_>>().join("; "),
     }
+}
+/// the transaction as a Coq list of operations
+fn tx_coq(o: &Op) -> String {
+    format!("[{}]", op_coq(o))
 }
 fn entry_coq(e: &Entry) -> String {
     match e {
@@ -166,10 +172,8 @@ impl World {
             }
         }
     }
-    /// Executes the op; for MintRuid fills in the generated ids. Returns the Coq outcome term.
-    fn exec(&mut self, res: ResourceAddress, op: &mut Op) -> String {
-        let b = ManifestBuilder::new().lock_fee_from_faucet();
-        let b = match op {
+    fn add_op(&self, b: ManifestBuilder, res: ResourceAddress, op: &Op) -> ManifestBuilder {
+        match op {
             Op::Mint(entries) => b
                 .mint_non_fungible(res, entries.iter().map(|(i, d)| (self.local_id(i), Data { a: d[0], b: d[1], c: d[2], d: d[3] })).collect::<Vec<_>>())
                 .try_deposit_entire_worktop_or_abort(self.account, None),
@@ -178,7 +182,12 @@ impl World {
                 .try_deposit_entire_worktop_or_abort(self.account, None),
             Op::Burn(ids) => b.burn_non_fungibles_in_account(self.account, res, ids.iter().map(|i| self.local_id(i)).collect::<Vec<_>>()),
             Op::Update(id, f, v) => b.update_non_fungible_data(res, self.local_id(id), FIELD_NAMES[*f], *v),
-        };
+            Op::Seq(ops) => ops.iter().fold(b, |b, o| self.add_op(b, res, o)),
+        }
+    }
+    /// Executes the op; for MintRuid fills in the generated ids. Returns the Coq outcome term.
+    fn exec(&mut self, res: ResourceAddress, op: &mut Op) -> String {
+        let b = self.add_op(ManifestBuilder::new().lock_fee_from_faucet(), res, op);
         // RUID mints run in a transaction whose hash the harness chooses, so that the generator
         // (hash(transaction hash ++ counter), counter from 0) can be recomputed
         self.tx_counter += 1;
@@ -249,11 +258,30 @@ fn rand_data(rng: &mut Rng) -> [u64; 4] {
     [rng.below(100), rng.below(100), rng.below(100), rng.below(100)]
 }
 
-fn run_case(w: &mut World, rng: &mut Rng, len: usize) -> Case {
-    let ty = *rng.pick(&[Ty::Int, Ty::Int, Ty::Str, Ty::Bytes, Ty::Ruid, Ty::Ruid]);
+/// scripted ids (Ty::Ruid, 1000 + j) stand for the j-th RUID generated in the case
+fn resolve(op: &Op, case_ruids: &[Id]) -> Op {
+    let r = |i: &Id| if i.0 == Ty::Ruid && i.1 >= 1000 { case_ruids.get((i.1 - 1000) as usize).cloned().unwrap_or((Ty::Int, 99)) } else { *i };
+    match op {
+        Op::Mint(e) => Op::Mint(e.iter().map(|(i, d)| (r(i), *d)).collect()),
+        Op::MintRuid(e) => Op::MintRuid(e.clone()),
+        Op::Burn(ids) => Op::Burn(ids.iter().map(r).collect()),
+        Op::Update(i, f, v) => Op::Update(r(i), *f, *v),
+        Op::Seq(ops) => Op::Seq(ops.iter().map(|o| resolve(o, case_ruids)).collect()),
+    }
+}
+
+fn run_case(w: &mut World, rng: &mut Rng, len: usize, script: Option<(Ty, Vec<u64>, Vec<Op>)>) -> Case {
+    let ty = match &script {
+        Some((t, _, _)) => *t,
+        None => *rng.pick(&[Ty::Int, Ty::Int, Ty::Str, Ty::Bytes, Ty::Ruid, Ty::Ruid]),
+    };
     const POOL: u64 = 6;
     let mut initial = Vec::new();
-    if ty != Ty::Ruid && rng.chance(1, 2) {
+    if let Some((_, keys, _)) = &script {
+        for k in keys {
+            initial.push(((ty, *k), [10 + k, 20 + k, 30 + k, 40 + k]));
+        }
+    } else if ty != Ty::Ruid && rng.chance(1, 2) {
         for k in 0..POOL {
             if rng.chance(1, 3) {
                 initial.push(((ty, k), rand_data(rng)));
@@ -272,7 +300,8 @@ fn run_case(w: &mut World, rng: &mut Rng, len: usize) -> Case {
     let mut held: BTreeSet<Id> = initial.iter().map(|x| x.0).collect();
     let mut case_ruids: Vec<Id> = Vec::new();
     let mut steps = Vec::new();
-    for _ in 0..len {
+    let n_steps = script.as_ref().map(|s| s.2.len()).unwrap_or(len);
+    for step_no in 0..n_steps {
         let r = rng.below(100);
         let pick_id = |rng: &mut Rng, case_ruids: &Vec<Id>| -> Id {
             if ty == Ty::Ruid {
@@ -287,7 +316,9 @@ fn run_case(w: &mut World, rng: &mut Rng, len: usize) -> Case {
                 (ty, rng.below(POOL))
             }
         };
-        let mut op = if r < 30 {
+        let mut op = if let Some((_, _, ops)) = &script {
+            resolve(&ops[step_no], &case_ruids)
+        } else if r < 30 {
             let n = rng.range(1, 4);
             let mut ids: Vec<Id> = Vec::new();
             for _ in 0..n {
@@ -343,6 +374,19 @@ fn run_case(w: &mut World, rng: &mut Rng, len: usize) -> Case {
                         held.remove(i);
                     }
                 }
+                Op::Seq(ops) => {
+                    for o in ops {
+                        match o {
+                            Op::Mint(e) => held.extend(e.iter().map(|x| x.0)),
+                            Op::Burn(ids) => {
+                                for i in ids {
+                                    held.remove(i);
+                                }
+                            }
+                            _ => {}
+                        }
+                    }
+                }
                 _ => {}
             }
         }
@@ -350,6 +394,113 @@ fn run_case(w: &mut World, rng: &mut Rng, len: usize) -> Case {
         steps.push((op, out, obs));
     }
     Case { ty, initial, steps }
+}
+
+fn touches(op: &Op, id: &Id) -> bool {
+    match op {
+        Op::Mint(e) | Op::MintRuid(e) => e.iter().any(|x| x.0 == *id),
+        Op::Burn(ids) => ids.contains(id),
+        Op::Update(i, _, _) => i == id,
+        Op::Seq(ops) => ops.iter().any(|o| touches(o, id)),
+    }
+}
+
+/// Deterministic boundary family (identical for every seed): (name, id type, initial keys, transactions)
+fn boundary_scripts() -> Vec<(&'static str, Ty, Vec<u64>, Vec<Op>)> {
+    let d = |k: u64| [k, k + 1, k + 2, k + 3];
+    let mut out = Vec::new();
+    for (name, ty) in [("remint_int", Ty::Int), ("remint_str", Ty::Str), ("remint_bytes", Ty::Bytes)] {
+        let other = if ty == Ty::Int { Ty::Str } else { Ty::Int };
+        let id = |k: u64| (ty, k);
+        out.push((
+            name,
+            ty,
+            vec![],
+            vec![
+                Op::Mint(vec![]),
+                Op::Mint(vec![(id(0), d(1))]),
+                Op::Mint(vec![(id(0), d(2))]),             // exists
+                Op::Burn(vec![id(0)]),
+                Op::Mint(vec![(id(0), d(3))]),             // burned: locked
+                Op::Update(id(0), 1, 5),                   // burned: locked
+                Op::Update(id(0), 4, 5),                   // unknown field is checked first
+                Op::Update(id(1), 1, 5),                   // never minted
+                Op::Mint(vec![(id(1), d(4)), (id(0), d(5))]),      // last entry offends: nothing minted
+                Op::Mint(vec![(id(0), d(5)), (id(1), d(4))]),      // first entry offends
+                Op::Mint(vec![((other, 0), d(6)), (id(1), d(4))]), // wrong id kind first
+                Op::Mint(vec![(id(1), d(4)), ((other, 0), d(6))]), // wrong id kind last
+                Op::Mint(vec![(id(1), d(4)), (id(2), d(7))]),
+                Op::Mint(vec![(id(3), d(8)), (id(2), d(9))]),      // existing last
+                Op::Mint(vec![((other, 1), d(6)), (id(2), d(9))]), // wrong kind before existing: kind error
+                Op::Mint(vec![(id(2), d(9)), ((other, 1), d(6))]), // existing before wrong kind: exists error
+                Op::Burn(vec![id(1), id(2)]),
+                Op::Mint(vec![(id(2), d(1))]),
+                Op::MintRuid(vec![((Ty::Ruid, 0), d(1))]),         // generated ids on an explicit-id resource
+            ],
+        ));
+    }
+    // the same id minted, burned and minted again inside ONE transaction; failing transactions leave nothing
+    let i = |k: u64| (Ty::Int, k);
+    out.push((
+        "same_transaction",
+        Ty::Int,
+        vec![5],
+        vec![
+            Op::Seq(vec![Op::Mint(vec![(i(3), d(1))]), Op::Burn(vec![i(3)]), Op::Mint(vec![(i(3), d(2))])]),
+            Op::Seq(vec![Op::Mint(vec![(i(3), d(1))]), Op::Burn(vec![i(3)])]),
+            Op::Mint(vec![(i(3), d(2))]),
+            Op::Seq(vec![Op::Mint(vec![(i(4), d(1))]), Op::Update(i(4), 1, 9), Op::Update(i(4), 3, 8)]),
+            Op::Seq(vec![Op::Mint(vec![(i(2), d(1))]), Op::Update(i(2), 0, 1)]),
+            Op::Seq(vec![Op::Burn(vec![i(4)]), Op::Update(i(4), 1, 7)]),
+            Op::Seq(vec![Op::Update(i(4), 1, 7), Op::Burn(vec![i(4)]), Op::Mint(vec![(i(4), d(3))])]),
+            Op::Seq(vec![Op::Burn(vec![i(5)]), Op::Mint(vec![(i(5), d(3))])]),
+            Op::Seq(vec![Op::Mint(vec![(i(1), d(1))]), Op::Mint(vec![(i(1), d(2))])]),
+            Op::Seq(vec![Op::Mint(vec![(i(1), d(1))]), Op::Mint(vec![(i(0), d(2))])]),
+        ],
+    ));
+    // the mutable-field boundary: tuple indices 0..3, b (1) and d (3, the last index) mutable; unknown name
+    out.push((
+        "field_boundary",
+        Ty::Int,
+        vec![0, 1],
+        vec![
+            Op::Update(i(0), 0, 100),
+            Op::Update(i(0), 1, 101),
+            Op::Update(i(0), 2, 102),
+            Op::Update(i(0), 3, 103),
+            Op::Update(i(0), 4, 104),
+            Op::Update(i(1), 3, 0),
+            Op::Update(i(1), 3, u64::MAX),
+            Op::Update(i(1), 1, 0),
+            Op::Mint(vec![(i(0), d(1))]),   // initial supply counts as minted
+            Op::Burn(vec![i(0)]),
+            Op::Mint(vec![(i(0), d(1))]),
+            Op::Update(i(0), 3, 1),
+        ],
+    ));
+    // RUID resources: 1, several and 0 generated ids; explicit ids refused; burn and update of generated ids
+    let r = |j: u64| (Ty::Ruid, 1000 + j);
+    out.push((
+        "ruid",
+        Ty::Ruid,
+        vec![],
+        vec![
+            Op::MintRuid(vec![((Ty::Ruid, 0), d(1))]),
+            Op::MintRuid(vec![((Ty::Ruid, 0), d(2)), ((Ty::Ruid, 0), d(3)), ((Ty::Ruid, 0), d(4))]),
+            Op::MintRuid(vec![]),
+            Op::Mint(vec![(i(0), d(5))]),
+            Op::Mint(vec![]),
+            Op::Update(r(0), 3, 77),
+            Op::Update(r(0), 2, 77),
+            Op::Burn(vec![r(0), r(2)]),
+            Op::Update(r(0), 1, 1),
+            Op::Update(r(1), 1, 1),
+            Op::Update(i(0), 1, 1),
+            Op::MintRuid(vec![((Ty::Ruid, 0), d(6))]),
+            Op::Burn(vec![r(1), r(3), r(4)]),
+        ],
+    ));
+    out
 }
 
 fn oracle(c: &Case) -> Vec<String> {
@@ -399,17 +550,32 @@ fn oracle(c: &Case) -> Vec<String> {
                     }
                 }
             }
+            Op::Seq(ops) if ok => {
+                // a committed multi-operation transaction: every mint in it carries never-used ids,
+                // every update names a mutable field
+                for o in ops {
+                    match o {
+                        Op::Mint(e) => {
+                            for (id, _) in e {
+                                if !ever.insert(*id) {
+                                    fails.push(format!("step {}: id {:?} minted (inside one transaction) although it was minted before", k, id));
+                                }
+                                if id.0 != c.ty {
+                                    fails.push(format!("step {}: minted id {:?} does not have the resource's id type", k, id));
+                                }
+                            }
+                        }
+                        Op::Update(_, f, _) if *f != 1 && *f != 3 => fails.push(format!("step {}: update of non-mutable field {} committed", k, FIELD_NAMES[*f])),
+                        _ => {}
+                    }
+                }
+            }
             _ => {}
         }
         // everything not addressed by a successful op is unchanged; burned ids are tombstones
         for (id, e1) in &after {
             let e0 = state.get(id).cloned().unwrap_or(Entry::Absent);
-            let touched = ok
-                && match op {
-                    Op::Mint(e) | Op::MintRuid(e) => e.iter().any(|x| x.0 == *id),
-                    Op::Burn(ids) => ids.contains(id),
-                    Op::Update(i, _, _) => i == id,
-                };
+            let touched = ok && touches(op, id);
             if !touched && e0 != *e1 {
                 fails.push(format!("step {}: entry of {:?} changed from {:?} to {:?} by {:?}", k, id, e0, e1, op));
             }
@@ -442,10 +608,16 @@ fn main() {
     let mut cw = CaseWriter::new("RV.Corr.C43_run RV.Model.C43_NfData", "check");
     let root = Rng::new(args.seed);
     let mut w = World::new();
-    for i in 0..args.cases {
+    let bf = boundary_scripts();
+    for i in 0..args.cases.max(bf.len() + 4) {
         let mut rng = root.fork(i as u64);
         let len = rng.range(8, 30) as usize;
-        let case = run_case(&mut w, &mut rng, len);
+        let case = if i < bf.len() {
+            report.count(&format!("bf.{}", bf[i].0));
+            run_case(&mut w, &mut rng, 0, Some((bf[i].1, bf[i].2.clone(), bf[i].3.clone())))
+        } else {
+            run_case(&mut w, &mut rng, len, None)
+        };
         let mut relock = false;
         let mut immut = false;
         for (op, out, _) in &case.steps {
@@ -454,9 +626,10 @@ fn main() {
                 Op::MintRuid(_) => "mint_ruid",
                 Op::Burn(_) => "burn",
                 Op::Update(..) => "update",
+                Op::Seq(..) => "seq",
             };
             report.count(&format!("{}.{}", name, out.trim_matches(|c| c == '(' || c == ')').replace("RErr ", "").replace("ROk tt", "Ok")));
-            if out == "(RErr ELocked)" && matches!(op, Op::Mint(_)) {
+            if out == "(RErr ELocked)" && matches!(op, Op::Mint(_) | Op::Seq(_)) {
                 relock = true;
             }
             if out == "(RErr EUnknownField)" {
@@ -480,11 +653,17 @@ fn main() {
             entries_coq(&case.initial),
             coq_list(case.steps.iter().map(|(o, out, obs)| format!(
                 "({}, {}, {})",
-                op_coq(o),
+                tx_coq(o),
                 out,
                 coq_list(obs.iter().map(|(i, e)| format!("({}, {})", id_coq(i), entry_coq(e))))
             )))
         ));
+    }
+    for (name, ..) in &bf {
+        report.floor(&format!("bf.{}", name), 1);
+    }
+    for key in ["mint.EIdTypeMismatch", "mint.EInvalidIdType", "mint_ruid.EInvalidIdType", "mint_ruid.Ok", "update.ELocked", "update.ENotFound", "seq.Ok", "seq.ELocked", "seq.EUnknownField", "seq.EAlreadyExists"] {
+        report.floor(key, 1);
     }
     report.floor("mint.ELocked", (args.cases as u64) / 4);
     report.floor("mint.EAlreadyExists", (args.cases as u64) / 4);
